@@ -5,6 +5,7 @@ pub mod c08;
 pub mod c09;
 pub mod c10;
 pub mod c11;
+pub mod c15;
 pub mod c16;
 
 pub const ALL: [&str; 19] = [
@@ -19,6 +20,7 @@ pub fn get(id: &str, tier: Tier) -> Option<CheckDef> {
         "C09" => c09::def(tier),
         "C10" => c10::def(tier),
         "C11" => c11::def(tier),
+        "C15" => c15::def(tier),
         "C16" => c16::def(tier),
         _ => return None,
     })
